@@ -77,11 +77,12 @@ func sendSteps(t *rapid.T, cfg sim.Config, max int, label string) []sim.Step {
 
 func genC01(t *rapid.T) c01Case {
 	c := c01Case{Cfg: sim.Config{
-		Soft:        rapid.Bool().Draw(t, "soft"),
-		SplitSize:   rapid.SampledFrom([]int{-1, 0, 1, 2, 7, 64, 1000}).Draw(t, "split"),
-		WriterBuf:   rapid.SampledFrom([]int{1, 16, 100, 0}).Draw(t, "wbuf"),
-		ManualFlush: rapid.IntRange(0, 3).Draw(t, "manual") == 0,
-		AppendEnc:   rapid.IntRange(0, 3).Draw(t, "appendenc") == 0,
+		Soft:         rapid.Bool().Draw(t, "soft"),
+		SplitSize:    rapid.SampledFrom([]int{-1, 0, 1, 2, 7, 64, 1000}).Draw(t, "split"),
+		WriterBuf:    rapid.SampledFrom([]int{1, 16, 100, 0}).Draw(t, "wbuf"),
+		ManualFlush:  rapid.IntRange(0, 3).Draw(t, "manual") == 0,
+		AppendEnc:    rapid.IntRange(0, 3).Draw(t, "appendenc") == 0,
+		NoInactivity: rapid.IntRange(0, 3).Draw(t, "noinactivity") == 0,
 	}}
 	if rapid.IntRange(0, 3).Draw(t, "readermax") == 0 {
 		c.Cfg.ReaderMax = rapid.SampledFrom([]int{64, 300, 5000}).Draw(t, "rmax")
